@@ -77,6 +77,12 @@ POOL = [key(100, 10, "02aabbcc0001"), key(100, 10, "02aabbcc0011"),   # shard 11
         key(100, 0, "02aabbcc0001"), key(101, 10, "02aabbcc0001"),    # untagged inner; other S-VLAN (same shard as #0)
         key(0, 0, "000000000000"), key(65535, 65535, "ffffffffffff"),
         key(100, 26, "02aabbcc0001"), key(200, 10, "0a0000001000")]
+# tuples that differ from BASE in exactly ONE component, every component in turn (S-VLAN, C-VLAN, each MAC byte; a low and a high bit)
+BASE = key(100, 10, "02aabbcc0001")
+ONE_OFF = [key(101, 10, "02aabbcc0001"), key(356, 10, "02aabbcc0001"), key(100, 11, "02aabbcc0001"), key(100, 266, "02aabbcc0001"),
+           key(100, 10, "03aabbcc0001"), key(100, 10, "82aabbcc0001"), key(100, 10, "02abbbcc0001"), key(100, 10, "022abbcc0001"),
+           key(100, 10, "02aabacc0001"), key(100, 10, "02aa3bcc0001"), key(100, 10, "02aabbcd0001"), key(100, 10, "02aabb4c0001"),
+           key(100, 10, "02aabbcc0101"), key(100, 10, "02aabbcc8001"), key(100, 10, "02aabbcc0000"), key(100, 10, "02aabbcc0081")]
 PROTOS = ["ipoe", "pppoe"]
 ODD_PROTOS = ["", "IPoE", "ipoe ", "l2tp", "pppo"]
 SIDS = ["s1", "s2", "s3", "a", "b"]
@@ -103,6 +109,8 @@ def rand_op(rng, keys, owners, weights=(5, 3, 2, 2)):
 
 def pick_keys(rng, n):
     mode = rng.random()
+    if mode > 0.8:           # BASE and tuples one component away from it
+        return rng.sample([BASE] + ONE_OFF, n)
     if mode < 0.35:          # colliding shards
         base = rng.choice(POOL)
         sh = shard_of(base)
@@ -213,6 +221,25 @@ def gen_cases(rng, tier, budget):
              for s in STRUCT_SEQ]
     # every pool tuple's shard, and all 16 low-nibble variations
     cases.append("seq " + " ".join("s %s" % k for k in POOL))
+    # one-component block: BASE and every ONE_OFF tuple are claimed by different sessions, released and displaced independently
+    for j, v in enumerate(ONE_OFF):
+        a, b, c = hx("b%d" % j), hx("v%d" % j), hx("w%d" % j)
+        cases.append("seq c %s %s %s %s c %s %s %s %s l %s l %s i %s %s %s %s i %s %s %s %s r %s %s %s %s l %s l %s c %s %s %s %s l %s n" % (
+            BASE, hx("ipoe"), a, BASE, v, hx("pppoe"), b, v, BASE, v, BASE, hx("pppoe"), b, BASE, v, hx("ipoe"), a, v,
+            v, hx("ipoe"), a, v, BASE, v, BASE, hx("pppoe"), c, BASE, v))
+    cases.append("seq " + " ".join("c %s %s %s %s" % (k, hx("ipoe"), hx("o%d" % i), k) for i, k in enumerate([BASE] + ONE_OFF))
+                 + " " + " ".join("l %s" % k for k in [BASE] + ONE_OFF) + " n")
+    for j in range(0, len(ONE_OFF), 4):      # concurrently: goroutine per tuple, all first use
+        ks = [BASE] + ONE_OFF[j:j + 4]
+        progs = ["3 c %s %s %s %s l %s r %s %s %s %s" % (k, hx(PROTOS[t % 2]), hx("z%d" % t), k, k, k, hx(PROTOS[t % 2]), hx("z%d" % t), k)
+                 for t, k in enumerate(ks)]
+        cases.append("conc d0y2x10 %d %s fin %d %s" % (len(ks), " ".join(progs), len(ks), " ".join("l %s" % k for k in ks)))
+    # both components / restarts: a session on the base tuple and one on each one-component variant never interfere
+    for v in range(1, 10):
+        cases.append("e2e D0 P%d D%d P0" % (v, v))
+        cases.append("ae2e P0 D%d D0 V P%d V" % (v, v))
+        cases.append("rpppoe N0 X%d B X0 N%d" % (v, v))
+        cases.append("ripoe N0 X%d B X0 N%d A%d" % (v, v, (v % 9) + 1))
     cases.append("seq " + " ".join("s %s" % key(100, c, "02aabbcc%02x%02x" % (a, b))
                                    for c in (0, 5, 15, 16) for a in (0, 9, 255) for b in (0, 1, 8, 15, 16, 255)))
     quick = tier == "quick"
@@ -254,6 +281,11 @@ def gen_cases(rng, tier, budget):
                 who, k, hx(other), hx("s8"), j, k, hx(other), hx("s8"), hx("s1"), k))
             cases.append("%s C 100 10 02aabbcc0001 %s 1 G %d x %s %s %s R 100 10 02aabbcc0001 %s 1 l %s" % (
                 who, hx("s1"), j, k, hx(other), hx("s9"), hx("s1"), k))
+        # the call sites on BASE and on each tuple one component away: claims, evictions and releases stay per tuple
+        for v in ONE_OFF:
+            sv, cv, m = v.split(".")
+            cases.append("%s C 100 10 02aabbcc0001 %s 1 x %s %s %s C %s %s %s %s 1 l %s l %s R 100 10 02aabbcc0001 %s 1 l %s l %s" % (
+                who, hx("s1"), v, hx(other), hx("s9"), sv, cv, m, hx("s2"), BASE, v, hx("s1"), BASE, v))
         for _ in range(300 if quick else 4000):
             cases.append(gen_callers(rng, who))
     for _ in range(nseq):
@@ -284,7 +316,7 @@ def route(case):
 
 def gen_ae2e(rng):
     """asynchronous bus: creations, PADT (X), operator terminate of the IPoE session (O) and deliveries (V) interleave"""
-    ts = rng.sample([0, 1, 2, 3], rng.choice([1, 1, 1, 2]))
+    ts = rng.sample(range(10), rng.choice([1, 1, 2, 3]))
     ops = []
     for _ in range(rng.randint(3, 8)):
         k = rng.choice("DDQSPPPVVVVXO")
@@ -300,7 +332,7 @@ AE2E_FIXED = ["ae2e D0 P0 V", "ae2e P0 D0 P0 V V", "ae2e P0 D0 O0 V V", "ae2e D0
 def gen_restore(rng, who):
     """ownership across restarts: N = the real component creates (and checkpoints) a session, H (ipoe) = checkpointed
     half-established, X = the other protocol's side gets a packet, B = restart (new registry, component restored from the opdb)"""
-    ts = rng.sample([0, 1, 2, 3], rng.choice([1, 1, 2]))
+    ts = rng.sample(range(10), rng.choice([1, 2, 2, 3]))
     kinds = "NNXXB" + ("HA" if who == "ripoe" else "")
     ops = []
     for _ in range(rng.randint(2, 7)):
@@ -316,7 +348,7 @@ RESTORE_FIXED = ["N0 B X0", "X0 N0 B", "N0 N0 B X0", "N0 X0 B N0 B", "N1 X2 B X1
 
 def gen_e2e(rng):
     """real ipoe + pppoe components on one registry and one bus: DISCOVER / PADI+PADR on 1..2 tuples"""
-    ts = rng.sample([0, 1, 2, 3], rng.choice([1, 1, 2]))
+    ts = rng.sample(range(10), rng.choice([1, 2, 2, 3]))
     return "e2e " + " ".join(rng.choice("DDQSPPP") + str(rng.choice(ts)) for _ in range(rng.randint(2, 6)))
 
 
@@ -331,7 +363,8 @@ def gen_callers(rng, who):
     """the component's own claim/release calls interleaved with registry calls by other parties"""
     other = "pppoe" if who == "ipoe" else "ipoe"
     tuples = [(100, 10, "02aabbcc0001"), (100, 11, "02aabbcc0001"), (100, 10, "02aabbcc0011"), (65535, 0, "ffffffffffff")]
-    tuples = rng.sample(tuples, rng.randint(1, 3))
+    tuples += [tuple([int(x) if i < 2 else x for i, x in enumerate(k.split("."))]) for k in ONE_OFF]
+    tuples = [tuples[0]] * (rng.random() < 0.5) + rng.sample(tuples[1:], rng.randint(1, 3))
     ops = []
     for _ in range(rng.randint(1, 16)):
         s, c, m = rng.choice(tuples)
